@@ -142,6 +142,6 @@ def check_large(case, ctx):
 SUBCHECKS = [
     Sub("block_split", check, strategy=cases(), quick=1500, thorough=5000,
         doc="labels and block centres vs the exact rational model for interior, edge, corner, near-edge and outside points"),
-    Sub("large", check_large, strategy=blocks.big_cases, quick=10, thorough=60,
+    Sub("large", check_large, strategy=blocks.big_cases, quick=10, thorough=60, heavy=True,
         doc="20 000 - 120 000 points on a dyadic sub-lattice of up to 40 x 40 blocks: labels equal floor division (vectorised oracle)"),
 ]
